@@ -2,7 +2,7 @@
 import ast
 import fnmatch
 import z3
-from .core import (Val, VNone, VTrue, VFalse, VInt, VStr, VBool, VRef, VFloat, I, B, S, ArrIV, ClassName, IsSub, StrOf,
+from .core import (tkey, Val, VNone, VTrue, VFalse, VInt, VStr, VBool, VRef, VFloat, I, B, S, ArrIV, ClassName, IsSub, StrOf,
                    TYPEBASE, HOST_CLASS_BASE, Unsupported, PathAbort, FuncObj, BoundMethod, ClassObj, ModuleObj,
                    ExternObj, BuiltinFn, SymCallable, SuperObj, Frame, LogEntry)
 from .front import mangle
@@ -172,7 +172,7 @@ class CallMixin:
                 if "classmethod" in decos:
                     return self.st.register(BoundMethod(self.pyobj(fo), self.class_term(cid)))
                 # one object per (function, receiver): `x.m is x.m` holds in the model, as `==` does in Python
-                return self.st_register_cached(("bound", fi.key, str(z3.simplify(obj))),
+                return self.st_register_cached(("bound", fi.key, tkey(obj)),
                                                lambda: BoundMethod(self.pyobj(fo), obj))
             if mem[0] == "classattr":
                 key = ("cls:%d" % mem[2].cid, name)
@@ -352,7 +352,7 @@ class CallMixin:
             self.raise_("TypeError", anchor)
         ob = self.pyobj(fv)
         if ob is None:
-            sc = self.st.ghost.get("sym_callables", {}).get(str(z3.simplify(fv)))
+            sc = self.st.ghost.get("sym_callables", {}).get(tkey(fv))
             if sc is None:
                 ob = self.pyobj(fv, deep=True)
         if ob is None:
